@@ -126,8 +126,14 @@ impl<'a> RegExp<'a> {
     }
 
     fn compile_regex(pattern: &str) -> Option<Regex> {
-        // Many test cases sharing prefixes produce deeply nested groups.
-        RegexBuilder::new(pattern).nest_limit(u32::MAX).build().ok()
+        // Many test cases sharing prefixes produce deeply nested groups, and long test cases
+        // converted to Unicode character classes produce large programs. Neither must make
+        // the check silently disappear.
+        RegexBuilder::new(pattern)
+            .nest_limit(u32::MAX)
+            .size_limit(usize::MAX)
+            .build()
+            .ok()
     }
 
     fn regex_matches_all_test_cases(regex: &Regex, test_cases: &[String]) -> bool {
